@@ -578,3 +578,397 @@ Theorem C11_model_is_source_lu :
   forall (T : Type) (O : Ops T) (a : list T),
     src_lu O is_square_z a = option_map (fun '(f, piv) => (f, map Z.of_nat piv)) (lu O a).
 Proof. exact @tiea_lu. Qed.
+
+Local Open Scope R_scope.
+(** ** Floating point (extension): componentwise BACKWARD ERROR of the triangular solves on binary64
+
+    The theorems above are exact arithmetic.  This section is the first floating-point link: it is about the SAME
+    model terms ([forward_substitution], [backward_substitution], [cholesky_solve] of Model/{Subst,Cholesky}.v, with
+    the 8-way unrolled [dot_raw] of Model/Reduce.v), instantiated at the carrier [FO tbl] (primitive binary64) on
+    which the correspondence check compares them bit for bit with the Rust code.  [B2Rf x] is the real value of the
+    double [x], [finite x] says that [x] is neither infinite nor NaN (Flocq).
+
+    Classical statement (Higham, Accuracy and Stability, Thm 8.5), with gamma = (1 + 2^-53)^n - 1 and n the order:
+    the COMPUTED solution x of T x = b satisfies, row by row,
+         | b_i - Sigma_j T_ij x_j |  <=  gamma * Sigma_j |T_ij| |x_j| ,
+    equivalently it is the EXACT solution of a triangular system T' x = b with |T'_ij - T_ij| <= gamma |T_ij| for
+    all i, j ([b] is not perturbed).  Hypotheses, all explicit:  the diagonal is finite and nonzero;  the computed x
+    is finite (this forces every intermediate value and every entry of [b] to be finite: no overflow anywhere);
+    no product t_ij * x_j underflows (its exact value is 0 or at least 2^-1022 in magnitude, as in
+    [C04_dot_error_binary64]);  no quotient s_i / t_ii underflows, where the numerator
+    s_i = b_i - dot(t_i, x) is written out as the subterm of the model that it is (the slices are those of the Rust
+    code: [&l[i*n..i*n+i]], [&x[..i]] resp. [&u[i*n+i+1..i*n+n]], [&x[i+1..]]).
+    The routine never reads the other triangle, so [T] is the lower (upper) triangular PART of the argument
+    ([lower_part], [upper_part]); the corollaries for an argument that is triangular follow. *)
+From Compute Require Import Spec.Vops Proofs.C04ErrF Proofs.C11_FloatBase Proofs.C11_FloatSubst Proofs.C11_FloatPert
+  Proofs.C11_FloatEx.
+
+(** the recurrence satisfied by the result, on EVERY carrier (hence bit for bit on binary64): it identifies the
+    numerators [s_i] used in the side conditions below as subterms of the model *)
+Theorem C11_forward_substitution_recurrence :
+  forall (T : Type) (O : Ops T) (l b x : list T) (n : nat),
+    forward_substitution O l b = Some x -> (n * n)%nat = length l ->
+    length b = n /\ length x = n /\
+    forall i, (i < n)%nat ->
+      nth i x (zero O) =
+      div O (sub O (nth i b (zero O)) (dot_raw O (firstn i (skipn (i * n) l)) (firstn i x))) (nth (i * n + i) l (zero O)).
+Proof. exact @forward_recurrence. Qed.
+
+Theorem C11_backward_substitution_recurrence :
+  forall (T : Type) (O : Ops T) (u b x : list T) (n : nat),
+    backward_substitution O u b = Some x -> (n * n)%nat = length u ->
+    length b = n /\ length x = n /\
+    forall i, (i < n)%nat ->
+      nth i x (zero O) =
+      div O (sub O (nth i b (zero O)) (dot_raw O (firstn (n - S i) (skipn (i * n + S i) u)) (skipn (S i) x)))
+            (nth (i * n + i) u (zero O)).
+Proof. exact @backward_recurrence. Qed.
+
+(** forward substitution: residual form and perturbed-matrix form, every order n *)
+Theorem C11_forward_substitution_backward_error_binary64 :
+  forall (tbl : libm_table) (l b x : list float) (n : nat),
+    forward_substitution (FO tbl) l b = Some x -> (n * n)%nat = length l ->
+    (forall i, (i < n)%nat -> finite (nth (i * n + i) l 0%float) /\ B2Rf (nth (i * n + i) l 0%float) <> 0) ->
+    Forall finite x ->
+    (forall i j, (i < n)%nat -> (j < i)%nat ->
+       B2Rf (nth (i * n + j) l 0%float) * B2Rf (nth j x 0%float) = 0 \/
+       / 2 ^ 1022 <= Rabs (B2Rf (nth (i * n + j) l 0%float) * B2Rf (nth j x 0%float))) ->
+    (forall i, (i < n)%nat ->
+       let s := (nth i b 0 - dot_raw (FO tbl) (firstn i (skipn (i * n) l)) (firstn i x))%float in
+       B2Rf s / B2Rf (nth (i * n + i) l 0%float) = 0 \/ / 2 ^ 1022 <= Rabs (B2Rf s / B2Rf (nth (i * n + i) l 0%float))) ->
+    let T := map B2Rf l in let B := map B2Rf b in let X := map B2Rf x in
+    let gamma := (1 + / 2 ^ 53) ^ n - 1 in
+    Forall finite b /\
+    (forall i, (i < n)%nat ->
+       Rabs (nth i B 0 - rsum (fun k => lower_part T n i k * nth k X 0) n)
+       <= gamma * rsum (fun k => Rabs (lower_part T n i k) * Rabs (nth k X 0)) n) /\
+    exists T' : list R,
+      length T' = (n * n)%nat /\ lower_triangular T' n /\
+      (forall i j, (i < n)%nat -> (j < n)%nat ->
+         Rabs (getm T' n i j - lower_part T n i j) <= gamma * Rabs (lower_part T n i j)) /\
+      (forall i, (i < n)%nat -> mvec T' n X i = nth i B 0).
+Proof. exact forward_substitution_backward_error. Qed.
+
+(** ... for a lower-triangular argument: |b - T x|_i <= gamma (|T| |x|)_i  and  (T + dT) x = b, |dT| <= gamma |T| *)
+Theorem C11_forward_substitution_backward_error_triangular_binary64 :
+  forall (tbl : libm_table) (l b x : list float) (n : nat),
+    forward_substitution (FO tbl) l b = Some x -> (n * n)%nat = length l ->
+    lower_triangular (map B2Rf l) n ->
+    (forall i, (i < n)%nat -> finite (nth (i * n + i) l 0%float) /\ B2Rf (nth (i * n + i) l 0%float) <> 0) ->
+    Forall finite x ->
+    (forall i j, (i < n)%nat -> (j < i)%nat ->
+       B2Rf (nth (i * n + j) l 0%float) * B2Rf (nth j x 0%float) = 0 \/
+       / 2 ^ 1022 <= Rabs (B2Rf (nth (i * n + j) l 0%float) * B2Rf (nth j x 0%float))) ->
+    (forall i, (i < n)%nat ->
+       let s := (nth i b 0 - dot_raw (FO tbl) (firstn i (skipn (i * n) l)) (firstn i x))%float in
+       B2Rf s / B2Rf (nth (i * n + i) l 0%float) = 0 \/ / 2 ^ 1022 <= Rabs (B2Rf s / B2Rf (nth (i * n + i) l 0%float))) ->
+    let T := map B2Rf l in let B := map B2Rf b in let X := map B2Rf x in
+    let gamma := (1 + / 2 ^ 53) ^ n - 1 in
+    (forall i, (i < n)%nat ->
+       Rabs (nth i B 0 - mvec T n X i) <= gamma * rsum (fun k => Rabs (getm T n i k) * Rabs (nth k X 0)) n) /\
+    exists T' : list R,
+      length T' = (n * n)%nat /\ lower_triangular T' n /\
+      (forall i j, (i < n)%nat -> (j < n)%nat -> Rabs (getm T' n i j - getm T n i j) <= gamma * Rabs (getm T n i j)) /\
+      (forall i, (i < n)%nat -> mvec T' n X i = nth i B 0).
+Proof. exact forward_substitution_backward_error_triangular. Qed.
+
+(** row i of the forward solve even has the constant (1 + 2^-53)^(i+1) - 1 (i products and additions, one
+    subtraction, one division; only the division when i = 0) *)
+Theorem C11_forward_substitution_backward_error_rowwise_binary64 :
+  forall (tbl : libm_table) (l b x : list float) (n : nat),
+    forward_substitution (FO tbl) l b = Some x -> (n * n)%nat = length l ->
+    (forall i, (i < n)%nat -> B2Rf (nth (i * n + i) l 0%float) <> 0) ->
+    Forall finite x ->
+    (forall i j, (i < n)%nat -> (j < i)%nat ->
+       B2Rf (nth (i * n + j) l 0%float) * B2Rf (nth j x 0%float) = 0 \/
+       / 2 ^ 1022 <= Rabs (B2Rf (nth (i * n + j) l 0%float) * B2Rf (nth j x 0%float))) ->
+    (forall i, (i < n)%nat ->
+       let s := (nth i b 0 - dot_raw (FO tbl) (firstn i (skipn (i * n) l)) (firstn i x))%float in
+       B2Rf s / B2Rf (nth (i * n + i) l 0%float) = 0 \/ / 2 ^ 1022 <= Rabs (B2Rf s / B2Rf (nth (i * n + i) l 0%float))) ->
+    forall i, (i < n)%nat ->
+      Rabs (nth i (map B2Rf b) 0 - rsum (fun k => lower_part (map B2Rf l) n i k * nth k (map B2Rf x) 0) n)
+      <= ((1 + / 2 ^ 53) ^ S i - 1)
+         * rsum (fun k => Rabs (lower_part (map B2Rf l) n i k) * Rabs (nth k (map B2Rf x) 0)) n.
+Proof. exact forward_rowwise. Qed.
+
+(** backward substitution *)
+Theorem C11_backward_substitution_backward_error_binary64 :
+  forall (tbl : libm_table) (u b x : list float) (n : nat),
+    backward_substitution (FO tbl) u b = Some x -> (n * n)%nat = length u ->
+    (forall i, (i < n)%nat -> finite (nth (i * n + i) u 0%float) /\ B2Rf (nth (i * n + i) u 0%float) <> 0) ->
+    Forall finite x ->
+    (forall i j, (i < j)%nat -> (j < n)%nat ->
+       B2Rf (nth (i * n + j) u 0%float) * B2Rf (nth j x 0%float) = 0 \/
+       / 2 ^ 1022 <= Rabs (B2Rf (nth (i * n + j) u 0%float) * B2Rf (nth j x 0%float))) ->
+    (forall i, (i < n)%nat ->
+       let s := (nth i b 0 - dot_raw (FO tbl) (firstn (n - S i) (skipn (i * n + S i) u)) (skipn (S i) x))%float in
+       B2Rf s / B2Rf (nth (i * n + i) u 0%float) = 0 \/ / 2 ^ 1022 <= Rabs (B2Rf s / B2Rf (nth (i * n + i) u 0%float))) ->
+    let T := map B2Rf u in let B := map B2Rf b in let X := map B2Rf x in
+    let gamma := (1 + / 2 ^ 53) ^ n - 1 in
+    Forall finite b /\
+    (forall i, (i < n)%nat ->
+       Rabs (nth i B 0 - rsum (fun k => upper_part T n i k * nth k X 0) n)
+       <= gamma * rsum (fun k => Rabs (upper_part T n i k) * Rabs (nth k X 0)) n) /\
+    exists T' : list R,
+      length T' = (n * n)%nat /\ upper_triangular T' n /\
+      (forall i j, (i < n)%nat -> (j < n)%nat ->
+         Rabs (getm T' n i j - upper_part T n i j) <= gamma * Rabs (upper_part T n i j)) /\
+      (forall i, (i < n)%nat -> mvec T' n X i = nth i B 0).
+Proof. exact backward_substitution_backward_error. Qed.
+
+Theorem C11_backward_substitution_backward_error_triangular_binary64 :
+  forall (tbl : libm_table) (u b x : list float) (n : nat),
+    backward_substitution (FO tbl) u b = Some x -> (n * n)%nat = length u ->
+    upper_triangular (map B2Rf u) n ->
+    (forall i, (i < n)%nat -> finite (nth (i * n + i) u 0%float) /\ B2Rf (nth (i * n + i) u 0%float) <> 0) ->
+    Forall finite x ->
+    (forall i j, (i < j)%nat -> (j < n)%nat ->
+       B2Rf (nth (i * n + j) u 0%float) * B2Rf (nth j x 0%float) = 0 \/
+       / 2 ^ 1022 <= Rabs (B2Rf (nth (i * n + j) u 0%float) * B2Rf (nth j x 0%float))) ->
+    (forall i, (i < n)%nat ->
+       let s := (nth i b 0 - dot_raw (FO tbl) (firstn (n - S i) (skipn (i * n + S i) u)) (skipn (S i) x))%float in
+       B2Rf s / B2Rf (nth (i * n + i) u 0%float) = 0 \/ / 2 ^ 1022 <= Rabs (B2Rf s / B2Rf (nth (i * n + i) u 0%float))) ->
+    let T := map B2Rf u in let B := map B2Rf b in let X := map B2Rf x in
+    let gamma := (1 + / 2 ^ 53) ^ n - 1 in
+    (forall i, (i < n)%nat ->
+       Rabs (nth i B 0 - mvec T n X i) <= gamma * rsum (fun k => Rabs (getm T n i k) * Rabs (nth k X 0)) n) /\
+    exists T' : list R,
+      length T' = (n * n)%nat /\ upper_triangular T' n /\
+      (forall i j, (i < n)%nat -> (j < n)%nat -> Rabs (getm T' n i j - getm T n i j) <= gamma * Rabs (getm T n i j)) /\
+      (forall i, (i < n)%nat -> mvec T' n X i = nth i B 0).
+Proof. exact backward_substitution_backward_error_triangular. Qed.
+
+(** row i of the backward solve has the constant (1 + 2^-53)^(n-i) - 1 *)
+Theorem C11_backward_substitution_backward_error_rowwise_binary64 :
+  forall (tbl : libm_table) (u b x : list float) (n : nat),
+    backward_substitution (FO tbl) u b = Some x -> (n * n)%nat = length u ->
+    (forall i, (i < n)%nat -> B2Rf (nth (i * n + i) u 0%float) <> 0) ->
+    Forall finite x ->
+    (forall i j, (i < j)%nat -> (j < n)%nat ->
+       B2Rf (nth (i * n + j) u 0%float) * B2Rf (nth j x 0%float) = 0 \/
+       / 2 ^ 1022 <= Rabs (B2Rf (nth (i * n + j) u 0%float) * B2Rf (nth j x 0%float))) ->
+    (forall i, (i < n)%nat ->
+       let s := (nth i b 0 - dot_raw (FO tbl) (firstn (n - S i) (skipn (i * n + S i) u)) (skipn (S i) x))%float in
+       B2Rf s / B2Rf (nth (i * n + i) u 0%float) = 0 \/ / 2 ^ 1022 <= Rabs (B2Rf s / B2Rf (nth (i * n + i) u 0%float))) ->
+    forall i, (i < n)%nat ->
+      Rabs (nth i (map B2Rf b) 0 - rsum (fun k => upper_part (map B2Rf u) n i k * nth k (map B2Rf x) 0) n)
+      <= ((1 + / 2 ^ 53) ^ (n - i) - 1)
+         * rsum (fun k => Rabs (upper_part (map B2Rf u) n i k) * Rabs (nth k (map B2Rf x) 0)) n.
+Proof. exact backward_rowwise. Qed.
+
+(** the two forms are equivalent, row by row and for any bound g >= 0: a residual bound yields a perturbed row
+    (written down explicitly, [pert_row]) that solves the equation exactly, and conversely *)
+Theorem C11_residual_bound_iff_perturbed_row :
+  forall (Tr X : nat -> R) (bi g : R) (n : nat), 0 <= g ->
+    (Rabs (bi - rsum (fun k => Tr k * X k) n) <= g * rsum (fun k => Rabs (Tr k) * Rabs (X k)) n
+     <-> exists Tr' : nat -> R,
+           (forall k, (k < n)%nat -> Rabs (Tr' k - Tr k) <= g * Rabs (Tr k)) /\ rsum (fun k => Tr' k * X k) n = bi).
+Proof. exact residual_iff_perturbed_row. Qed.
+
+(** [cholesky_solve] = forward solve with L, [transpose], backward solve with L^T: the computed x is the exact
+    solution of  T1 (T2 x) = b  with a lower-triangular T1 and an upper-triangular T2, each within gamma
+    (entrywise, relatively) of L resp. L^T; [y] is the computed intermediate vector, [lt] the transposed array *)
+Theorem C11_cholesky_solve_backward_error_binary64 :
+  forall (tbl : libm_table) (l b y lt x : list float) (n : nat),
+    cholesky_solve (FO tbl) l b = Some x -> (n * n)%nat = length l ->
+    forward_substitution (FO tbl) l b = Some y -> transpose (FO tbl) l n = Some lt ->
+    (forall i, (i < n)%nat -> finite (nth (i * n + i) l 0%float) /\ B2Rf (nth (i * n + i) l 0%float) <> 0) ->
+    Forall finite y -> Forall finite x ->
+    (forall i j, (i < n)%nat -> (j < i)%nat ->
+       B2Rf (nth (i * n + j) l 0%float) * B2Rf (nth j y 0%float) = 0 \/
+       / 2 ^ 1022 <= Rabs (B2Rf (nth (i * n + j) l 0%float) * B2Rf (nth j y 0%float))) ->
+    (forall i, (i < n)%nat ->
+       let s := (nth i b 0 - dot_raw (FO tbl) (firstn i (skipn (i * n) l)) (firstn i y))%float in
+       B2Rf s / B2Rf (nth (i * n + i) l 0%float) = 0 \/ / 2 ^ 1022 <= Rabs (B2Rf s / B2Rf (nth (i * n + i) l 0%float))) ->
+    (forall i j, (i < j)%nat -> (j < n)%nat ->
+       B2Rf (nth (j * n + i) l 0%float) * B2Rf (nth j x 0%float) = 0 \/
+       / 2 ^ 1022 <= Rabs (B2Rf (nth (j * n + i) l 0%float) * B2Rf (nth j x 0%float))) ->
+    (forall i, (i < n)%nat ->
+       let s := (nth i y 0 - dot_raw (FO tbl) (firstn (n - S i) (skipn (i * n + S i) lt)) (skipn (S i) x))%float in
+       B2Rf s / B2Rf (nth (i * n + i) l 0%float) = 0 \/ / 2 ^ 1022 <= Rabs (B2Rf s / B2Rf (nth (i * n + i) l 0%float))) ->
+    let T := map B2Rf l in let B := map B2Rf b in let Y := map B2Rf y in let X := map B2Rf x in
+    let gamma := (1 + / 2 ^ 53) ^ n - 1 in
+    exists T1 T2 : list R,
+      length T1 = (n * n)%nat /\ length T2 = (n * n)%nat /\ lower_triangular T1 n /\ upper_triangular T2 n /\
+      (forall i j, (i < n)%nat -> (j < n)%nat ->
+         Rabs (getm T1 n i j - lower_part T n i j) <= gamma * Rabs (lower_part T n i j)) /\
+      (forall i j, (i < n)%nat -> (j < n)%nat ->
+         Rabs (getm T2 n i j - lower_part T n j i) <= gamma * Rabs (lower_part T n j i)) /\
+      (forall i, (i < n)%nat -> mvec T1 n Y i = nth i B 0) /\
+      (forall i, (i < n)%nat -> mvec T2 n X i = nth i Y 0) /\
+      (forall i, (i < n)%nat -> rsum (fun k => getm T1 n i k * mvec T2 n X k) n = nth i B 0).
+Proof. exact cholesky_solve_backward_error. Qed.
+
+(** the side conditions can be checked on COMPUTED values: a quotient whose computed value is finite and strictly
+    above the smallest normal number 2^-1022 in magnitude did not underflow (for products:
+    [C04_computed_normal_product_suffices]) ... *)
+Theorem C11_computed_normal_quotient_suffices :
+  forall a b : float,
+    B2Rf b <> 0 -> finite (a / b)%float -> / 2 ^ 1022 < Rabs (B2Rf (a / b)%float) ->
+    B2Rf a / B2Rf b = 0 \/ / 2 ^ 1022 <= Rabs (B2Rf a / B2Rf b).
+Proof. exact computed_normal_quotient. Qed.
+
+(** ... hence all hypotheses of the two theorems follow from conditions on the returned vector and on the computed
+    products alone: every x_i finite and above 2^-1022 in magnitude, every fl(t_ij x_j) finite and above 2^-1022
+    unless t_ij is a zero *)
+Theorem C11_forward_conditions_from_computed_values :
+  forall (tbl : libm_table) (l b x : list float) (n : nat),
+    forward_substitution (FO tbl) l b = Some x -> (n * n)%nat = length l ->
+    (forall i, (i < n)%nat -> finite (nth (i * n + i) l 0%float) /\ B2Rf (nth (i * n + i) l 0%float) <> 0) ->
+    (forall i, (i < n)%nat -> finite (nth i x 0%float) /\ / 2 ^ 1022 < Rabs (B2Rf (nth i x 0%float))) ->
+    (forall i j, (i < n)%nat -> (j < i)%nat ->
+       B2Rf (nth (i * n + j) l 0%float) = 0 \/
+       finite (nth (i * n + j) l 0 * nth j x 0)%float /\ / 2 ^ 1022 < Rabs (B2Rf (nth (i * n + j) l 0 * nth j x 0)%float)) ->
+    Forall finite x /\
+    (forall i j, (i < n)%nat -> (j < i)%nat ->
+       B2Rf (nth (i * n + j) l 0%float) * B2Rf (nth j x 0%float) = 0 \/
+       / 2 ^ 1022 <= Rabs (B2Rf (nth (i * n + j) l 0%float) * B2Rf (nth j x 0%float))) /\
+    (forall i, (i < n)%nat ->
+       let s := (nth i b 0 - dot_raw (FO tbl) (firstn i (skipn (i * n) l)) (firstn i x))%float in
+       B2Rf s / B2Rf (nth (i * n + i) l 0%float) = 0 \/ / 2 ^ 1022 <= Rabs (B2Rf s / B2Rf (nth (i * n + i) l 0%float))).
+Proof. exact forward_conditions_from_computed. Qed.
+
+Theorem C11_backward_conditions_from_computed_values :
+  forall (tbl : libm_table) (u b x : list float) (n : nat),
+    backward_substitution (FO tbl) u b = Some x -> (n * n)%nat = length u ->
+    (forall i, (i < n)%nat -> finite (nth (i * n + i) u 0%float) /\ B2Rf (nth (i * n + i) u 0%float) <> 0) ->
+    (forall i, (i < n)%nat -> finite (nth i x 0%float) /\ / 2 ^ 1022 < Rabs (B2Rf (nth i x 0%float))) ->
+    (forall i j, (i < j)%nat -> (j < n)%nat ->
+       B2Rf (nth (i * n + j) u 0%float) = 0 \/
+       finite (nth (i * n + j) u 0 * nth j x 0)%float /\ / 2 ^ 1022 < Rabs (B2Rf (nth (i * n + j) u 0 * nth j x 0)%float)) ->
+    Forall finite x /\
+    (forall i j, (i < j)%nat -> (j < n)%nat ->
+       B2Rf (nth (i * n + j) u 0%float) * B2Rf (nth j x 0%float) = 0 \/
+       / 2 ^ 1022 <= Rabs (B2Rf (nth (i * n + j) u 0%float) * B2Rf (nth j x 0%float))) /\
+    (forall i, (i < n)%nat ->
+       let s := (nth i b 0 - dot_raw (FO tbl) (firstn (n - S i) (skipn (i * n + S i) u)) (skipn (S i) x))%float in
+       B2Rf s / B2Rf (nth (i * n + i) u 0%float) = 0 \/ / 2 ^ 1022 <= Rabs (B2Rf s / B2Rf (nth (i * n + i) u 0%float))).
+Proof. exact backward_conditions_from_computed. Qed.
+
+(** the hypotheses are satisfiable: 3 x 3 systems with non-representable quotients (x_0 = fl(1/3), 3 x_0 <> 1, ...);
+    every hypothesis of the three theorems is established for the solution computed inside Coq on binary64 *)
+Example C11_example_forward_backward_error :
+  let l := [3; 0; 0;  1; 3; 0;  1; 1; 3]%float in let b := [1; 1; 1]%float in
+  exists x,
+    forward_substitution FO0 l b = Some x /\ (3 * 3)%nat = length l /\
+    (forall i, (i < 3)%nat -> finite (nth (i * 3 + i) l 0%float) /\ B2Rf (nth (i * 3 + i) l 0%float) <> 0) /\
+    Forall finite x /\
+    (forall i j, (i < 3)%nat -> (j < i)%nat ->
+       B2Rf (nth (i * 3 + j) l 0%float) * B2Rf (nth j x 0%float) = 0 \/
+       / 2 ^ 1022 <= Rabs (B2Rf (nth (i * 3 + j) l 0%float) * B2Rf (nth j x 0%float))) /\
+    (forall i, (i < 3)%nat ->
+       let s := (nth i b 0 - dot_raw FO0 (firstn i (skipn (i * 3) l)) (firstn i x))%float in
+       B2Rf s / B2Rf (nth (i * 3 + i) l 0%float) = 0 \/ / 2 ^ 1022 <= Rabs (B2Rf s / B2Rf (nth (i * 3 + i) l 0%float))) /\
+    3 * B2Rf (nth 0 x 0%float) <> 1.
+Proof. exact forward_example. Qed.
+
+Example C11_example_backward_backward_error :
+  let u := [3; 1; 1;  0; 3; 1;  0; 0; 3]%float in let b := [1; 1; 1]%float in
+  exists x,
+    backward_substitution FO0 u b = Some x /\ (3 * 3)%nat = length u /\
+    (forall i, (i < 3)%nat -> finite (nth (i * 3 + i) u 0%float) /\ B2Rf (nth (i * 3 + i) u 0%float) <> 0) /\
+    Forall finite x /\
+    (forall i j, (i < j)%nat -> (j < 3)%nat ->
+       B2Rf (nth (i * 3 + j) u 0%float) * B2Rf (nth j x 0%float) = 0 \/
+       / 2 ^ 1022 <= Rabs (B2Rf (nth (i * 3 + j) u 0%float) * B2Rf (nth j x 0%float))) /\
+    (forall i, (i < 3)%nat ->
+       let s := (nth i b 0 - dot_raw FO0 (firstn (3 - S i) (skipn (i * 3 + S i) u)) (skipn (S i) x))%float in
+       B2Rf s / B2Rf (nth (i * 3 + i) u 0%float) = 0 \/ / 2 ^ 1022 <= Rabs (B2Rf s / B2Rf (nth (i * 3 + i) u 0%float))) /\
+    3 * B2Rf (nth 2 x 0%float) <> 1.
+Proof. exact backward_example. Qed.
+
+Example C11_example_cholesky_solve_backward_error :
+  let l := [3; 0; 0;  1; 3; 0;  1; 1; 3]%float in let b := [1; 1; 1]%float in
+  exists y lt x,
+    cholesky_solve FO0 l b = Some x /\ (3 * 3)%nat = length l /\
+    forward_substitution FO0 l b = Some y /\ transpose FO0 l 3 = Some lt /\
+    (forall i, (i < 3)%nat -> finite (nth (i * 3 + i) l 0%float) /\ B2Rf (nth (i * 3 + i) l 0%float) <> 0) /\
+    Forall finite y /\ Forall finite x /\
+    (forall i j, (i < 3)%nat -> (j < i)%nat ->
+       B2Rf (nth (i * 3 + j) l 0%float) * B2Rf (nth j y 0%float) = 0 \/
+       / 2 ^ 1022 <= Rabs (B2Rf (nth (i * 3 + j) l 0%float) * B2Rf (nth j y 0%float))) /\
+    (forall i, (i < 3)%nat ->
+       let s := (nth i b 0 - dot_raw FO0 (firstn i (skipn (i * 3) l)) (firstn i y))%float in
+       B2Rf s / B2Rf (nth (i * 3 + i) l 0%float) = 0 \/ / 2 ^ 1022 <= Rabs (B2Rf s / B2Rf (nth (i * 3 + i) l 0%float))) /\
+    (forall i j, (i < j)%nat -> (j < 3)%nat ->
+       B2Rf (nth (j * 3 + i) l 0%float) * B2Rf (nth j x 0%float) = 0 \/
+       / 2 ^ 1022 <= Rabs (B2Rf (nth (j * 3 + i) l 0%float) * B2Rf (nth j x 0%float))) /\
+    (forall i, (i < 3)%nat ->
+       let s := (nth i y 0 - dot_raw FO0 (firstn (3 - S i) (skipn (i * 3 + S i) lt)) (skipn (S i) x))%float in
+       B2Rf s / B2Rf (nth (i * 3 + i) l 0%float) = 0 \/ / 2 ^ 1022 <= Rabs (B2Rf s / B2Rf (nth (i * 3 + i) l 0%float))).
+Proof. exact cholesky_solve_example. Qed.
+
+(** an order-10 instance (rows 8 and 9 use the 8-way unrolled chunk of [dot] plus the remainder loop):
+    t_ii = 3, t_ij = 1 below the diagonal, b = (1, .., 1); exact solution x_k = 2^k / 3^(k+1), none representable *)
+Example C11_example_forward_backward_error_order_10 :
+  let l := flat_map (fun i => map (fun j => if (j <? i)%nat then 1%float else if (j =? i)%nat then 3%float else 0%float)
+                                  (seq 0 10)) (seq 0 10) in
+  let b := repeat 1%float 10 in
+  exists x,
+    forward_substitution FO0 l b = Some x /\ (10 * 10)%nat = length l /\
+    (forall i, (i < 10)%nat -> finite (nth (i * 10 + i) l 0%float) /\ B2Rf (nth (i * 10 + i) l 0%float) <> 0) /\
+    Forall finite x /\
+    (forall i j, (i < 10)%nat -> (j < i)%nat ->
+       B2Rf (nth (i * 10 + j) l 0%float) * B2Rf (nth j x 0%float) = 0 \/
+       / 2 ^ 1022 <= Rabs (B2Rf (nth (i * 10 + j) l 0%float) * B2Rf (nth j x 0%float))) /\
+    (forall i, (i < 10)%nat ->
+       let s := (nth i b 0 - dot_raw FO0 (firstn i (skipn (i * 10) l)) (firstn i x))%float in
+       B2Rf s / B2Rf (nth (i * 10 + i) l 0%float) = 0 \/ / 2 ^ 1022 <= Rabs (B2Rf s / B2Rf (nth (i * 10 + i) l 0%float))).
+Proof. exact forward_example_10. Qed.
+
+(** ** ... and the [Matrix] forms.  [Matrix::forward_substitution] / [backward_substitution] assert that the receiver
+    is triangular ([== 0.] on the other triangle: on binary64 the entry is +0 or -0) and then run the same loops
+    ([C11_slice_eq_matrix_forward_substitution], every carrier), so the backward-error statement holds for them with
+    the matrix itself, no triangularity hypothesis left *)
+From Compute Require Import Proofs.C11_FloatMatrix.
+
+Theorem C11_matrix_forward_substitution_backward_error_binary64 :
+  forall (tbl : libm_table) (m : matrix (T:=float)) (b x : list float),
+    matrix_forward_substitution (FO tbl) m b = Some x ->
+    let n := nr m in let l := dat m in
+    (forall i, (i < n)%nat -> finite (nth (i * n + i) l 0%float) /\ B2Rf (nth (i * n + i) l 0%float) <> 0) ->
+    Forall finite x ->
+    (forall i j, (i < n)%nat -> (j < i)%nat ->
+       B2Rf (nth (i * n + j) l 0%float) * B2Rf (nth j x 0%float) = 0 \/
+       / 2 ^ 1022 <= Rabs (B2Rf (nth (i * n + j) l 0%float) * B2Rf (nth j x 0%float))) ->
+    (forall i, (i < n)%nat ->
+       let s := (nth i b 0 - dot_raw (FO tbl) (firstn i (skipn (i * n) l)) (firstn i x))%float in
+       B2Rf s / B2Rf (nth (i * n + i) l 0%float) = 0 \/ / 2 ^ 1022 <= Rabs (B2Rf s / B2Rf (nth (i * n + i) l 0%float))) ->
+    let T := map B2Rf l in let B := map B2Rf b in let X := map B2Rf x in
+    let gamma := (1 + / 2 ^ 53) ^ n - 1 in
+    (forall i, (i < n)%nat ->
+       Rabs (nth i B 0 - mvec T n X i) <= gamma * rsum (fun k => Rabs (getm T n i k) * Rabs (nth k X 0)) n) /\
+    exists T' : list R,
+      length T' = (n * n)%nat /\ lower_triangular T' n /\
+      (forall i j, (i < n)%nat -> (j < n)%nat -> Rabs (getm T' n i j - getm T n i j) <= gamma * Rabs (getm T n i j)) /\
+      (forall i, (i < n)%nat -> mvec T' n X i = nth i B 0).
+Proof. exact matrix_forward_substitution_backward_error. Qed.
+
+Theorem C11_matrix_backward_substitution_backward_error_binary64 :
+  forall (tbl : libm_table) (m : matrix (T:=float)) (b x : list float),
+    matrix_backward_substitution (FO tbl) m b = Some x ->
+    let n := nr m in let u := dat m in
+    (forall i, (i < n)%nat -> finite (nth (i * n + i) u 0%float) /\ B2Rf (nth (i * n + i) u 0%float) <> 0) ->
+    Forall finite x ->
+    (forall i j, (i < j)%nat -> (j < n)%nat ->
+       B2Rf (nth (i * n + j) u 0%float) * B2Rf (nth j x 0%float) = 0 \/
+       / 2 ^ 1022 <= Rabs (B2Rf (nth (i * n + j) u 0%float) * B2Rf (nth j x 0%float))) ->
+    (forall i, (i < n)%nat ->
+       let s := (nth i b 0 - dot_raw (FO tbl) (firstn (n - S i) (skipn (i * n + S i) u)) (skipn (S i) x))%float in
+       B2Rf s / B2Rf (nth (i * n + i) u 0%float) = 0 \/ / 2 ^ 1022 <= Rabs (B2Rf s / B2Rf (nth (i * n + i) u 0%float))) ->
+    let T := map B2Rf u in let B := map B2Rf b in let X := map B2Rf x in
+    let gamma := (1 + / 2 ^ 53) ^ n - 1 in
+    (forall i, (i < n)%nat ->
+       Rabs (nth i B 0 - mvec T n X i) <= gamma * rsum (fun k => Rabs (getm T n i k) * Rabs (nth k X 0)) n) /\
+    exists T' : list R,
+      length T' = (n * n)%nat /\ upper_triangular T' n /\
+      (forall i j, (i < n)%nat -> (j < n)%nat -> Rabs (getm T' n i j - getm T n i j) <= gamma * Rabs (getm T n i j)) /\
+      (forall i, (i < n)%nat -> mvec T' n X i = nth i B 0).
+Proof. exact matrix_backward_substitution_backward_error. Qed.
+
+(** the receiver's triangularity test on binary64 does imply triangularity of the real values *)
+Theorem C11_triangular_guard_binary64 :
+  forall (tbl : libm_table) (a : list float) (n : nat),
+    (is_lower_triangular_rows (FO tbl) (unflatten a n n) n n = true -> lower_triangular (map B2Rf a) n) /\
+    (is_upper_triangular_rows (FO tbl) (unflatten a n n) n = true -> upper_triangular (map B2Rf a) n).
+Proof. exact (fun tbl a n => conj (lower_guard_triangular tbl a n) (upper_guard_triangular tbl a n)). Qed.
